@@ -12,7 +12,7 @@ set_option linter.unusedVariables false
 
 namespace Inkayaku.Rs
 
-/-- `fn is_move_legal(&mut self, mv: Move) -> bool` in `impl Bitboard` (board/src/board.rs:1125).
+/-- `fn is_move_legal(&mut self, mv: Move) -> bool` in `impl Bitboard` (board/src/board.rs:1117).
 * `white` = field `self.white: PlayerState`
 * `black` = field `self.black: PlayerState`
 * `turn` = field `self.turn: u32`
